@@ -53,6 +53,13 @@ func fmtValues(thorough bool) []fmtVal {
 			out = append(out, v)
 		}
 	}
+	for i, c := range WordShapes() {
+		if thorough || i%6 == 0 {
+			for _, q := range []int{-ref.NumDigits(c) + 1, -3, 0} {
+				add(mkFmtVal(i%2 == 1, c, q))
+			}
+		}
+	}
 	// non-minimal cohort encodings (trailing zeros inside the coefficient), ties included
 	for _, base := range []string{"5", "15", "25", "125", "995", "1234565", "12345678901234567890125", "12345678901234567890250", "1", "99"} {
 		for z := 1; z <= 33; z++ {
